@@ -514,6 +514,71 @@ pub fn install(ctx: *mut SimCtx) {
 }
 pub fn uninstall() {
     CTX.with(|c| c.set(std::ptr::null_mut()));
+    ABORT_FLAG.with(|c| c.set(std::ptr::null()));
+}
+
+// ---- process aborts on a simulation thread -------------------------------------------------------------
+// The code under test can end the process without unwinding (failed allocation -> handle_alloc_error ->
+// abort(); a panic while panicking; an explicit abort()). The simulator turns that into an observable
+// outcome of the run: allocations above ALLOC_CAP fail on simulation threads (so "allocation failure" is
+// a deterministic function of the requested size, not of the machine), and SIGABRT raised on a simulation
+// thread marks the run as aborted and parks the thread for good instead of killing the whole batch.
+thread_local! {
+    static ABORT_FLAG: Cell<*const std::sync::atomic::AtomicBool> = const { Cell::new(std::ptr::null()) };
+}
+/// Largest single allocation a simulation thread is granted (the workloads are a few hundred kilobytes).
+pub const ALLOC_CAP: usize = 256 << 20;
+
+pub fn set_abort_flag(p: *const std::sync::atomic::AtomicBool) {
+    ABORT_FLAG.with(|c| c.set(p));
+}
+
+extern "C" fn on_sigabrt(_sig: c_int) {
+    let p = ABORT_FLAG.try_with(|c| c.get()).unwrap_or(std::ptr::null());
+    if p.is_null() {
+        // not a simulation thread: returning lets abort() finish with the default action
+        return;
+    }
+    unsafe {
+        (*p).store(true, std::sync::atomic::Ordering::SeqCst);
+        loop {
+            libc::pause();
+        }
+    }
+}
+
+pub fn install_abort_handler() {
+    unsafe {
+        let mut sa: libc::sigaction = std::mem::zeroed();
+        sa.sa_sigaction = on_sigabrt as usize;
+        libc::sigemptyset(&mut sa.sa_mask);
+        libc::sigaction(libc::SIGABRT, &sa, std::ptr::null_mut());
+    }
+}
+
+pub struct CapAlloc;
+unsafe impl std::alloc::GlobalAlloc for CapAlloc {
+    unsafe fn alloc(&self, l: std::alloc::Layout) -> *mut u8 {
+        if l.size() > ALLOC_CAP && on_sim_thread() {
+            return std::ptr::null_mut();
+        }
+        std::alloc::System.alloc(l)
+    }
+    unsafe fn alloc_zeroed(&self, l: std::alloc::Layout) -> *mut u8 {
+        if l.size() > ALLOC_CAP && on_sim_thread() {
+            return std::ptr::null_mut();
+        }
+        std::alloc::System.alloc_zeroed(l)
+    }
+    unsafe fn realloc(&self, p: *mut u8, l: std::alloc::Layout, n: usize) -> *mut u8 {
+        if n > ALLOC_CAP && on_sim_thread() {
+            return std::ptr::null_mut();
+        }
+        std::alloc::System.realloc(p, l, n)
+    }
+    unsafe fn dealloc(&self, p: *mut u8, l: std::alloc::Layout) {
+        std::alloc::System.dealloc(p, l)
+    }
 }
 #[inline]
 fn cur() -> *mut SimCtx {
